@@ -11,7 +11,7 @@ theorem firstValue_all (fs : List Field) (s : String) (hs : lower (ascii s) = as
   unfold hdrsAll firstField
   exact firstValue_hdrs s hs fs 0
 
-theorem toObsRes_assemble (h : ResHead) (info : Meta) (k2 : ¬ KF.C05.headerNameCaseRes h) :
+theorem toObsRes_assemble (h : ResHead) (info : Meta) :
     toObsRes (assembleRes h.ver (statusValue h.status) h.reason (hdrsAll h.fields) (statusLine h) info) =
       reportRes h := by
   unfold toObsRes assembleRes reportRes
@@ -21,16 +21,7 @@ theorem toObsRes_assemble (h : ResHead) (info : Meta) (k2 : ¬ KF.C05.headerName
     unfold convertHeaders
     apply List.map_congr_left
     intro x hx
-    apply convertHeader_eq_sigEntry
-    have e : hdrsOf h.fields.zipIdx = h.fields.zipIdx.map hdrOf := rfl
-    rw [e, List.mem_map] at hx
-    obtain ⟨p, hp, rfl⟩ := hx
-    have hmem : p.1 ∈ h.fields := by
-      have := List.mem_map_of_mem (f := (·.1)) hp
-      rwa [zipIdx_map_fst] at this
-    cases hq : KF.C05.nameCaseOf false (hdrOf p).name with
-    | false => rfl
-    | true => exact absurd ⟨p.1, hmem, hq⟩ k2
+    exact convertHeader_eq_sigEntry false x
   rw [hhord]
   rfl
 
@@ -49,17 +40,16 @@ theorem rendered_length_ge (l0 : Bytes) (ls : List Bytes) : l0.length + 4 ≤ (r
     | cons a r => rw [rendered_length_cons]; omega
   omega
 
-theorem h1CanRequest_wf (h : ReqHead) (body : Bytes) (wf : WFReq h) (k1 : ¬ KF.C05.methodGate h) :
+theorem gate_covers : ∀ m ∈ supportedMethods.map ascii, m ∈ HttpLists.gateMethods.map ascii := by decide +kernel
+
+theorem h1CanRequest_wf (h : ReqHead) (body : Bytes) (wf : WFReq h) :
     h1CanRequest (renderReq h ++ body) = true := by
   have hl0 := requestLine_ok h wf
   have hs := splitWs_requestLine h wf
   obtain ⟨hm, _, _, hv, _⟩ := wf
   obtain ⟨_, _, m3, _, m5⟩ := method_facts _ hm
   obtain ⟨_, _, _, v4, v5, _⟩ := verText_facts _ hv
-  have hgate : h.method ∈ HttpLists.gateMethods.map ascii := by
-    by_cases hq : h.method ∈ HttpLists.gateMethods.map ascii
-    · exact hq
-    · exact absurd ⟨hm, hq⟩ k1
+  have hgate : h.method ∈ HttpLists.gateMethods.map ascii := gate_covers _ hm
   unfold h1CanRequest
   rw [renderReq_eq]
   have hlen : ¬ (rendered (requestLine h :: h.fields.map fieldLine) ++ body).length < HttpLists.gateRequestMinLen := by
